@@ -403,22 +403,33 @@ func runModule(inp *input, scratch string) core.Result {
 	for gi, g := range inp.Gens {
 		gens = append(gens, fmt.Sprintf("mk_gen %d %s %s", gi, core.Hex(g.Name), core.CoqBool(g.Alias)))
 	}
-	var pkgs []string
+	var pkgs, srcs []string
 	for _, p := range lay.Pkgs { // directories p0 < p1 < … : sorted by path
 		if !loaded[p.Idx] {
 			continue
 		}
-		var fts, defs []string
+		var fts, defs, fdocs, ddocs []string
 		for _, ft := range p.FileTags {
 			fts = append(fts, coqKVs(ft))
 		}
+		for _, fd := range p.FileDocs {
+			fdocs = append(fdocs, core.Hex(fd))
+		}
+		for _, d := range p.Defs {
+			if d.DocText != "" {
+				ddocs = append(ddocs, fmt.Sprintf("(%d, %s)", d.ID, core.Hex(d.DocText)))
+			}
+		}
+		srcs = append(srcs, "("+core.CoqList(fdocs)+", "+core.CoqList(ddocs)+")")
 		for _, d := range p.Defs {
 			defs = append(defs, fmt.Sprintf("mk_tdef %d %s %s %s %s %s %s", d.ID, core.Hex(d.Name), d.Kind, core.CoqBool(d.PkgScope),
 				coqKVs(d.Tags), coqAction(d.Action), coqDefers(d.Defers)))
 		}
 		pkgs = append(pkgs, fmt.Sprintf("mk_pkg %d %s %s %s", p.Idx, core.CoqBool(direct[p.Idx]), core.CoqList(fts), core.CoqList(defs)))
 	}
-	res.Coq = fmt.Sprintf("CModule %s %s %s %s %s", core.CoqBool(inp.All), coqKVs(inp.Globals), core.CoqList(gens), core.CoqList(pkgs), core.CoqList(coqRuns))
+	// srcs: per package, Text() of its package docs and of the comment group above each declaration — the model
+	// of ExtractCommentTags / commentLinesFrom (C12) computes the tag maps from them (Model/Tables.v)
+	res.Coq = fmt.Sprintf("CModule %s %s %s %s %s %s", core.CoqBool(inp.All), coqKVs(inp.Globals), core.CoqList(gens), core.CoqList(pkgs), core.CoqList(srcs), core.CoqList(coqRuns))
 
 	// distribution
 	feat := map[string]bool{}
